@@ -704,6 +704,31 @@ def replay(path):
     return 1 if real else 0
 
 
+def macro_coverage(tier, seed):
+    """line coverage of the proc macro under the corpus (harness/coverage.py); cached next to the results"""
+    key = "%s-%s-%s-%d" % (pipeline.repo_key(), pipeline.framework_key(), tier, seed)
+    rep = os.path.join(pipeline.WORK_ROOT, "coverage", "report.json")
+    try:
+        if os.path.exists(rep):
+            with open(rep) as f:
+                r = json.load(f)
+            if r.get("key") == key:
+                return r["summary"]
+        p = subprocess.run([sys.executable, os.path.join(os.path.dirname(os.path.abspath(__file__)), "coverage.py"), tier, str(seed)],
+                           stdout=subprocess.PIPE, stderr=subprocess.STDOUT, text=True, timeout=3600)
+        with open(rep) as f:
+            r = json.load(f)
+        summary = {"lines": r["total_lines"], "covered": r["covered_lines"],
+                   "missed": ["%s:%d" % (fn, m["line"]) for fn, fr in r["files"].items() for m in fr["missed"]][:60]}
+        r["key"] = key
+        r["summary"] = summary
+        with open(rep, "w") as f:
+            json.dump(r, f)
+        return summary
+    except Exception as e:  # noqa  (no nightly toolchain, …): coverage is information, not a verdict
+        return {"unavailable": str(e)[:200]}
+
+
 def main(argv):
     t0 = time.time()
     if len(argv) >= 3 and argv[1] == "replay":
@@ -791,6 +816,8 @@ def main(argv):
             rc = 1
 
     ops_total = sum(v for k, v in cov.items() if k.startswith("ops_"))
+    if tier == "thorough":
+        cov["macro_line_coverage"] = macro_coverage(tier, seed)
     evidence = {
         "property_id": prop, "tier": tier, "seed": seed, "level": "proof",
         "coverage": {
